@@ -7,7 +7,7 @@ CONSTANTS
   ModLocs = {"mo.py"}
   PVals = {1, 2}
   MVals = {3}
-  OVals = {101, 102}
+  OVals = {}
   WithDelSpace = TRUE
   OpenFindings = {}
   MaxOps = 99
